@@ -48,22 +48,23 @@ Definition DGRAM_MAXSIZE : Z := 65536.   (* UV__UDP_DGRAM_MAXSIZE *)
 Definition BATCH : nat := 20.            (* ARRAY_SIZE(m), N in uv__udp_sendmsg, ARRAY_SIZE(peers) *)
 
 (* one datagram: its sequence number (submission order on the handle) and size *)
-Record dgram := mkD { d_seq : nat; d_len : Z }.
+Record dgram := mkD { d_seq : nat; d_len : N }.
 
 (* uv_udp_send_t *)
 Record req := mkReq { q_id : nat; q_d : dgram; q_status : Z }.
 
 (* answer of sendmsg (bytes) / sendmmsg (messages), or an errno *)
-Inductive sans := SRet (r : N) | SErr (e : Z).
+(* errno values are positive *)
+Inductive sans := SRet (r : N) | SErr (e : positive).
 (* a received message: which datagram, msg_len, MSG_TRUNC *)
 Record rmsg := mkM { m_id : nat; m_len : Z; m_trunc : bool }.
 (* answer of recvmsg (one message) / recvmmsg (k messages), or an errno *)
 Inductive rans := RMsgs (l : list rmsg) | RErr (e : Z).
 
 Inductive op :=
-| OSend (len : Z) (addr : bool)      (* uv_udp_send, one datagram of len bytes, addr != NULL *)
-| OTry (len : Z) (addr : bool)       (* uv_udp_try_send *)
-| OTry2 (lens : list Z) (flags : Z)  (* uv_udp_try_send2 with a batch *)
+| OSend (len : N) (addr : bool)      (* uv_udp_send, one datagram of len bytes, addr != NULL *)
+| OTry (len : N) (addr : bool)       (* uv_udp_try_send *)
+| OTry2 (lens : list N) (flags : Z)  (* uv_udp_try_send2 with a batch *)
 | OGet                               (* the two getters and uv_is_active *)
 | ORecvStart
 | ORecvStop
@@ -161,11 +162,11 @@ Definition set_active (b : bool) (s : st) : st :=
 (* An exhausted oracle answers EAGAIN.                                 *)
 
 Definition is_eintr (a : sans) : bool :=
-  match a with SErr e => e =? EINTR | SRet _ => false end.
+  match a with SErr e => Z.pos e =? EINTR | SRet _ => false end.
 
 Fixpoint send_retry (mk : sans -> event) (o : list sans) : sans * list event * list sans :=
   match o with
-  | [] => (SErr EAGAIN, [mk (SErr EAGAIN)], [])
+  | [] => (SErr 11, [mk (SErr 11)], [])
   | a :: o' =>
       if is_eintr a then
         let '(a', ev, o'') := send_retry mk o' in (a', mk a :: ev, o'')
@@ -188,7 +189,7 @@ Definition vexit (nsent : Z) (a : sans) : Z :=
   if 0 <? nsent then nsent
   else match a with
        | SRet r => Z.of_N r            (* r == 0 *)
-       | SErr e => map_errno e         (* r < 0: re-derived from errno *)
+       | SErr e => map_errno (Z.pos e) (* r < 0: re-derived from errno *)
        end.
 
 (* the sendmmsg loop of uv__udp_sendmsgv (count > 1):
@@ -223,7 +224,7 @@ Fixpoint chunk_loop (fx : bool) (fuel : nat) (ds : list dgram) (i : nat) (nsent 
 (* uv__udp_sendmsg1: 1 when sent, else the mapped errno *)
 Definition sendmsg1 (d : dgram) (o : list sans) : Z * list event * list sans :=
   let '(a, ev, o') := send_retry (ESys1 (d_seq d)) o in
-  (match a with SRet _ => 1 | SErr e => map_errno e end, ev, o').
+  (match a with SRet _ => 1 | SErr e => map_errno (Z.pos e) end, ev, o').
 
 (* uv__udp_sendmsgv *)
 Definition sendmsgv (fx : bool) (ds : list dgram) (o : list sans) : Z * list event * list sans :=
@@ -234,13 +235,13 @@ Definition sendmsgv (fx : bool) (ds : list dgram) (o : list sans) : Z * list eve
   end.
 
 (* ------------------------------------------------------------------ *)
-Definition sum_len (l : list req) : Z := fold_right (fun r a => d_len (q_d r) + a) 0 l.
+Definition sum_len (l : list req) : Z := fold_right (fun r a => Z.of_N (d_len (q_d r)) + a) 0 l.
 Definition with_status (r : req) (st : Z) : req := mkReq (q_id r) (q_d r) st.
 
 (* while (n > 0) { head of write_queue: status = size; move to write_completed_queue; n--; } *)
 Definition complete (k : nat) (s : st) : st :=
   set_queues (skipn k (wq s))
-             (cq s ++ map (fun r => with_status r (d_len (q_d r))) (firstn k (wq s)))
+             (cq s ++ map (fun r => with_status r (Z.of_N (d_len (q_d r)))) (firstn k (wq s)))
              (sq_size s) (sq_count s) s.
 
 (* req->status = n on the head of write_queue; move it to write_completed_queue *)
@@ -287,43 +288,45 @@ Definition bump_seq (k : nat) (s : st) : st :=
 Definition bump_id (s : st) : st :=
   set_ctr (next_seq s) (S (next_id s)) (next_buf s) (ncb s) (nrcb s) s.
 
-(* uv_udp_send; every call uses up one request id and one sequence number *)
-Definition udp_send (fx : bool) (s : st) (len : Z) (addr : bool) : st * list event :=
+(* uv_udp_send; every call uses up one request id and one sequence number.  The event of
+   the call is put in front of the system calls it makes (its result is known by then:
+   past the entry check uv__udp_send returns 0). *)
+Definition udp_send (fx : bool) (s : st) (len : N) (addr : bool) : st * list event :=
   let id := next_id s in
   let seq := next_seq s in
   let s0 := bump_id (bump_seq 1 s) in
   let c := check_before_send s addr in
-  if c <? 0 then (s0, [ESend id seq len c])
+  if c <? 0 then (s0, [ESend id seq (Z.of_N len) c])
   else
     let empty_queue := sq_count s0 =? 0 in
     let s1 := set_active true
                 (set_queues (wq s0 ++ [mkReq id (mkD seq len) 0]) (cq s0)
-                            (sq_size s0 + len) (sq_count s0 + 1) s0) in
+                            (sq_size s0 + Z.of_N len) (sq_count s0 + 1) s0) in
     if empty_queue && negb (processing s1) then
       let '(s2, ev) := udp_sendmsg fx s1 in
       let s3 := match wq s2 with [] => s2 | _ => set_pout true s2 end in
-      (s3, ev ++ [ESend id seq len 0])
-    else (set_pout true s1, [ESend id seq len 0]).
+      (s3, ESend id seq (Z.of_N len) 0 :: ev)
+    else (set_pout true s1, [ESend id seq (Z.of_N len) 0]).
 
 (* uv_udp_try_send *)
-Definition udp_try_send (s : st) (len : Z) (addr : bool) : st * list event :=
+Definition udp_try_send (s : st) (len : N) (addr : bool) : st * list event :=
   let seq := next_seq s in
   let s0 := bump_seq 1 s in
   let c := check_before_send s addr in
-  if c <? 0 then (s0, [ETry seq len c])
-  else if negb (sq_count s0 =? 0) then (s0, [ETry seq len UV_EAGAIN])
+  if c <? 0 then (s0, [ETry seq (Z.of_N len) c])
+  else if negb (sq_count s0 =? 0) then (s0, [ETry seq (Z.of_N len) UV_EAGAIN])
   else
     let '(r, ev, o') := sendmsg1 (mkD seq len) (os s0) in
-    (set_os o' s0, ev ++ [ETry seq len (if 0 <? r then len else r)]).
+    (set_os o' s0, ev ++ [ETry seq (Z.of_N len) (if 0 <? r then Z.of_N len else r)]).
 
-Fixpoint mk_batch (seq : nat) (lens : list Z) : list dgram :=
+Fixpoint mk_batch (seq : nat) (lens : list N) : list dgram :=
   match lens with
   | [] => []
   | l :: ls => mkD seq l :: mk_batch (S seq) ls
   end.
 
 (* uv_udp_try_send2 *)
-Definition udp_try_send2 (fx : bool) (s : st) (lens : list Z) (flags : Z) : st * list event :=
+Definition udp_try_send2 (fx : bool) (s : st) (lens : list N) (flags : Z) : st * list event :=
   let seq0 := next_seq s in
   let count := length lens in
   let s0 := bump_seq count s in
@@ -388,7 +391,7 @@ Fixpoint completed_loop (fx : bool) (fuel : nat) (beh : nat -> list op) (s : st)
       match cq s with
       | [] => (s, [])
       | r :: c =>
-          let s1 := set_queues (wq s) c (sq_size s - d_len (q_d r)) (sq_count s - 1) s in
+          let s1 := set_queues (wq s) c (sq_size s - Z.of_N (d_len (q_d r))) (sq_count s - 1) s in
           let k := ncb s1 in
           let s2 := set_ctr (next_seq s1) (next_id s1) (next_buf s1) (S k) (nrcb s1) s1 in
           let status := if 0 <=? q_status r then 0 else q_status r in
@@ -478,6 +481,28 @@ Definition udp_recvmmsg (fx : bool) (rbeh : nat -> bool -> list op) (s : st) (b 
       (s3, ev ++ e2 ++ e3, Z.of_nat (length ms))
   end.
 
+(* one pass through the body of the do { } while of uv__udp_recvmsg with buffer b of
+   len bytes: the state, the events, nread (-1 = error) and what is left of the budget *)
+Definition recv_round (fx : bool) (rbeh : nat -> bool -> list op) (s0 : st) (b : nat)
+                      (len count : Z) : st * list event * Z * Z :=
+  if mmsg s0 then
+    let '(s1, e1, nread) := udp_recvmmsg fx rbeh s0 b len in
+    (s1, e1, nread, if 0 <? nread then count - nread else count)
+  else
+    let '(a0, e0, o') := recv_retry (fun a => ERSys false 1 (rclamp 1 a)) (orv s0) in
+    let s1 := set_orv o' (allocs s0) s0 in
+    match rclamp 1 a0 with
+    | RMsgs (m :: _) =>
+        let '(s2, e2) := recv_cb fx rbeh s1 b Whole (m_len m) (Some (m_id m)) (msg_flags m) in
+        (s2, e0 ++ e2, m_len m, count - 1)
+    | RMsgs [] =>      (* not a recvmsg answer; treated as EAGAIN *)
+        let '(s2, e2) := recv_cb fx rbeh s1 b Whole 0 None 0 in
+        (s2, e0 ++ e2, -1, count - 1)
+    | RErr e =>
+        let '(s2, e2) := recv_cb fx rbeh s1 b Whole (if e =? EAGAIN then 0 else - e) None 0 in
+        (s2, e0 ++ e2, -1, count - 1)
+    end.
+
 (* the do { } while of uv__udp_recvmsg; [count] is the budget *)
 Fixpoint recvmsg_loop (fx : bool) (fuel : nat) (rbeh : nat -> bool -> list op) (s : st)
                       (count : Z) : st * list event :=
@@ -492,26 +517,7 @@ Fixpoint recvmsg_loop (fx : bool) (fuel : nat) (rbeh : nat -> bool -> list op) (
         let '(s1, e1) := recv_cb fx rbeh s0 b Whole UV_ENOBUFS None 0 in
         (s1, EAlloc b len :: e1)
       else
-        let '(s2, ev, nread, count') :=
-          if mmsg s0 then
-            let '(s1, e1, nread) := udp_recvmmsg fx rbeh s0 b len in
-            (s1, e1, nread, if 0 <? nread then count - nread else count)
-          else
-            let '(a0, e0, o') := recv_retry (fun a => ERSys false 1 (rclamp 1 a)) (orv s0) in
-            let s1 := set_orv o' (allocs s0) s0 in
-            match rclamp 1 a0 with
-            | RMsgs (m :: _) =>
-                let '(s2, e2) := recv_cb fx rbeh s1 b Whole (m_len m) (Some (m_id m))
-                                         (msg_flags m) in
-                (s2, e0 ++ e2, m_len m, count - 1)
-            | RMsgs [] =>      (* not a recvmsg answer; treated as EAGAIN *)
-                let '(s2, e2) := recv_cb fx rbeh s1 b Whole 0 None 0 in
-                (s2, e0 ++ e2, -1, count - 1)
-            | RErr e =>
-                let '(s2, e2) := recv_cb fx rbeh s1 b Whole (if e =? EAGAIN then 0 else - e)
-                                         None 0 in
-                (s2, e0 ++ e2, -1, count - 1)
-            end in
+        let '(s2, ev, nread, count') := recv_round fx rbeh s0 b len count in
         if negb (nread =? -1) && (0 <? count') && negb (closing s2) && recving s2 then
           let '(s3, ev') := recvmsg_loop fx f rbeh s2 count' in
           (s3, EAlloc b len :: ev ++ ev')
@@ -590,18 +596,17 @@ Definition handed_by (e : event) : list nat :=
 Definition handed (tr : list event) : list nat := flat_map handed_by tr.
 
 (* ------------------------------------------------------------------ *)
-(* The monitor: a decidable predicate on traces.  Its state: *)
+(* The monitors: decidable predicates on traces.  [mon] watches the send side,
+   [bmon] the buffers of the receive side. *)
 Record mon := mkMon {
   m_owed : list (nat * nat * Z);   (* accepted by uv_udp_send, callback not seen yet: id, seq, bytes *)
   m_next : nat;                    (* request ids are handed out in increasing order *)
   m_hand : list nat;               (* sequence numbers handed to the OS, latest first *)
   m_errs : list (nat * Z);         (* (seq, uv error) for the first datagram of a failed call *)
-  m_closed : bool;
-  m_buf : option (nat * bool * bool);  (* buffer out: id, chunk callbacks seen, recv_stop seen since *)
-  m_nbuf : nat
+  m_closed : bool
 }.
 
-Definition mon0 : mon := mkMon [] O [] [] false None O.
+Definition mon0 : mon := mkMon [] O [] [] false.
 
 Definition newer (hs : list nat) (seq : nat) : bool :=
   match hs with [] => true | h :: _ => (h <? seq)%nat end.
@@ -615,14 +620,15 @@ Fixpoint hand_all (hs : list nat) (seqs : list nat) : option (list nat) :=
 Definition real_err (e : Z) : bool :=
   negb ((e =? EINTR) || (e =? EAGAIN) || (e =? ENOBUFS)).
 
-Fixpoint find_owed (id : nat) (l : list (nat * nat * Z)) : option (nat * Z) :=
+Definition okey : Type := (nat * nat * Z)%type.
+Fixpoint find_owed (id : nat) (l : list okey) : option (nat * Z) :=
   match l with
   | [] => None
   | (i, sq, ln) :: r => if (i =? id)%nat then Some (sq, ln) else find_owed id r
   end.
-Definition drop_owed (id : nat) (l : list (nat * nat * Z)) : list (nat * nat * Z) :=
+Definition drop_owed (id : nat) (l : list okey) : list okey :=
   filter (fun x => negb (fst (fst x) =? id)%nat) l.
-Definition owed_bytes (l : list (nat * nat * Z)) : Z := fold_right (fun x a => snd x + a) 0 l.
+Definition owed_bytes (l : list okey) : Z := fold_right (fun x a => snd x + a) 0 l.
 
 Definition mem_nat (x : nat) (l : list nat) : bool := existsb (Nat.eqb x) l.
 Definition mem_err (x : nat) (st : Z) (l : list (nat * Z)) : bool :=
@@ -632,28 +638,30 @@ Definition mon_sys (m : mon) (seqs : list nat) (a : sans) : option mon :=
   match a with
   | SRet r =>
       match hand_all (m_hand m) (firstn (N.to_nat r) seqs) with
-      | Some hs => Some (mkMon (m_owed m) (m_next m) hs (m_errs m) (m_closed m) (m_buf m) (m_nbuf m))
+      | Some hs => Some (mkMon (m_owed m) (m_next m) hs (m_errs m) (m_closed m))
       | None => None
       end
   | SErr e =>
-      if real_err e then
+      if real_err (Z.pos e) then
         match seqs with
-        | x :: _ => Some (mkMon (m_owed m) (m_next m) (m_hand m) ((x, - e) :: m_errs m)
-                                (m_closed m) (m_buf m) (m_nbuf m))
+        | x :: _ => Some (mkMon (m_owed m) (m_next m) (m_hand m) ((x, - Z.pos e) :: m_errs m)
+                                (m_closed m))
         | [] => Some m
         end
       else Some m
   end.
 
-Definition has_flag (flags f : Z) : bool := Z.odd (flags / f).
+Definition cb_ok (m : mon) (seq : nat) (status : Z) : bool :=
+  if mem_nat seq (m_hand m) then status =? 0
+  else negb (status =? 0) &&
+       (mem_err seq status (m_errs m) || ((status =? UV_ECANCELED) && m_closed m)).
 
 Definition mon_step (m : mon) (e : event) : option mon :=
   match e with
   | ESend id seq len ret =>
       if ret =? 0 then
         if (m_next m <=? id)%nat then
-          Some (mkMon (m_owed m ++ [(id, seq, len)]) (S id) (m_hand m) (m_errs m) (m_closed m)
-                      (m_buf m) (m_nbuf m))
+          Some (mkMon (m_owed m ++ [(id, seq, len)]) (S id) (m_hand m) (m_errs m) (m_closed m))
         else None
       else Some m
   | ESys1 seq a => mon_sys m [seq] (match a with SRet _ => SRet 1 | _ => a end)
@@ -662,59 +670,15 @@ Definition mon_step (m : mon) (e : event) : option mon :=
       match find_owed id (m_owed m) with
       | None => None
       | Some (seq, _) =>
-          let ok :=
-            if mem_nat seq (m_hand m) then status =? 0
-            else negb (status =? 0) &&
-                 (mem_err seq status (m_errs m) || ((status =? UV_ECANCELED) && m_closed m)) in
-          if ok then Some (mkMon (drop_owed id (m_owed m)) (m_next m) (m_hand m) (m_errs m)
-                                 (m_closed m) (m_buf m) (m_nbuf m))
+          if cb_ok m seq status
+          then Some (mkMon (drop_owed id (m_owed m)) (m_next m) (m_hand m) (m_errs m) (m_closed m))
           else None
       end
   | EGet size count _ =>
       if (count =? Z.of_nat (length (m_owed m))) && (size =? owed_bytes (m_owed m))
       then Some m else None
-  | EClose => Some (mkMon (m_owed m) (m_next m) (m_hand m) (m_errs m) true (m_buf m) (m_nbuf m))
+  | EClose => Some (mkMon (m_owed m) (m_next m) (m_hand m) (m_errs m) true)
   | EClosed => match m_owed m with [] => Some m | _ => None end
-  | EAlloc b _ =>
-      match m_buf m with
-      | None => if (m_nbuf m <=? b)%nat
-                then Some (mkMon (m_owed m) (m_next m) (m_hand m) (m_errs m) (m_closed m)
-                                 (Some (b, false, false)) (S b))
-                else None
-      | Some (_, _, stopped) =>
-          (* a buffer may be left behind only after uv_udp_recv_stop in a chunk callback *)
-          if stopped && (m_nbuf m <=? b)%nat
-          then Some (mkMon (m_owed m) (m_next m) (m_hand m) (m_errs m) (m_closed m)
-                           (Some (b, false, false)) (S b))
-          else None
-      end
-  | ERecv b p _ _ flags =>
-      match m_buf m with
-      | Some (b', chunks, stopped) =>
-          if (b =? b')%nat then
-            match p with
-            | Chunk _ =>
-                if has_flag flags UV_UDP_MMSG_CHUNK
-                then Some (mkMon (m_owed m) (m_next m) (m_hand m) (m_errs m) (m_closed m)
-                                 (Some (b', true, stopped)) (m_nbuf m))
-                else None
-            | Whole =>
-                (* handed back; after chunk callbacks only as UV_UDP_MMSG_FREE *)
-                if negb (has_flag flags UV_UDP_MMSG_CHUNK) &&
-                   (negb chunks || has_flag flags UV_UDP_MMSG_FREE)
-                then Some (mkMon (m_owed m) (m_next m) (m_hand m) (m_errs m) (m_closed m)
-                                 None (m_nbuf m))
-                else None
-            end
-          else None
-      | None => None
-      end
-  | ERecvStop _ =>
-      match m_buf m with
-      | Some (b, true, _) => Some (mkMon (m_owed m) (m_next m) (m_hand m) (m_errs m) (m_closed m)
-                                         (Some (b, true, true)) (m_nbuf m))
-      | _ => Some m
-      end
   | _ => Some m
   end.
 
@@ -727,5 +691,58 @@ Fixpoint mon_run (m : mon) (tr : list event) : option mon :=
                 end
   end.
 
+(* buffers: the one alloc_cb handed out and recv_cb has not handed back
+   (id, chunk callbacks seen, uv_udp_recv_stop seen in a chunk callback), next id *)
+Definition bmon : Type := (option (nat * bool * bool) * nat)%type.
+Definition bmon0 : bmon := (None, O).
+
+Definition has_flag (flags f : Z) : bool := Z.odd (flags / f).
+
+Definition bmon_step (m : bmon) (e : event) : option bmon :=
+  let '(cur, nb) := m in
+  match e with
+  | EAlloc b _ =>
+      match cur with
+      | None => if (nb <=? b)%nat then Some (Some (b, false, false), S b) else None
+      | Some (_, _, stopped) =>
+          (* a buffer may be left behind only after uv_udp_recv_stop in a chunk callback *)
+          if stopped && (nb <=? b)%nat then Some (Some (b, false, false), S b) else None
+      end
+  | ERecv b p _ _ flags =>
+      match cur with
+      | Some (b', chunks, stopped) =>
+          if (b =? b')%nat then
+            match p with
+            | Chunk _ =>
+                if has_flag flags UV_UDP_MMSG_CHUNK then Some (Some (b', true, stopped), nb) else None
+            | Whole =>
+                (* handed back; after chunk callbacks only as UV_UDP_MMSG_FREE *)
+                if negb (has_flag flags UV_UDP_MMSG_CHUNK) &&
+                   (negb chunks || has_flag flags UV_UDP_MMSG_FREE)
+                then Some (None, nb) else None
+            end
+          else None
+      | None => None
+      end
+  | ERecvStop _ =>
+      match cur with
+      | Some (b, true, _) => Some (Some (b, true, true), nb)
+      | _ => Some m
+      end
+  | _ => Some m
+  end.
+
+Fixpoint bmon_run (m : bmon) (tr : list event) : option bmon :=
+  match tr with
+  | [] => Some m
+  | e :: tr' => match bmon_step m e with
+                | Some m' => bmon_run m' tr'
+                | None => None
+                end
+  end.
+
 Definition accepts (tr : list event) : bool :=
-  match mon_run mon0 tr with Some _ => true | None => false end.
+  match mon_run mon0 tr, bmon_run bmon0 tr with
+  | Some _, Some _ => true
+  | _, _ => false
+  end.
